@@ -781,7 +781,8 @@ func c20FieldOnly(got, want string, f int) bool {
 
 // single instruction lines, including malformed ones
 func c20InstCase(r *Run, rng *Rng) {
-	in := c20GenInst(rng, int64(rng.Intn(4096))*16)
+	// PC is an int32 printed as %04x: also kernels longer than 64 KiB of code
+	in := c20GenInst(rng, int64(rng.Pick(rng.Intn(4096)*16, rng.Intn(4096)*16, 0xfff0, 0x10000, 0xffff0, 0x123450, 0x7ffffff0)))
 	toks := strings.Fields(in.render())
 	kind := "wellformed"
 	if rng.Chance(45) {
